@@ -2,6 +2,7 @@ package main
 
 import (
 	"fmt"
+	"math"
 	"sort"
 	"strings"
 	"time"
@@ -187,9 +188,38 @@ func moreScenarios() []*Scenario {
 // policyScenarios: scenarios explored around a non-synchronous base schedule (lagging participant,
 // partition with an echoing Byzantine participant).
 type policyPlan struct {
-	sc  *Scenario
-	pol Policy
-	byz bool // explore Byzantine deviations (else honest-network deviations)
+	sc     *Scenario
+	pol    Policy
+	byz    bool // explore Byzantine deviations (else honest-network deviations)
+	byzAll bool // ... as broadcasts to all honest participants
+}
+
+// byzWinsBeacon returns a beacon for which the Byzantine participant holds the best ticket of the given round
+// of instance 0 (tickets are deterministic signatures over the beacon).
+func byzWinsBeacon(sc *Scenario, round uint64) string {
+	for n := 0; n < 256; n++ {
+		b := fmt.Sprintf("w%d", n)
+		probe := *sc
+		probe.Beacon = b
+		w := newWorld(&probe)
+		be := w.newBackend()
+		pt := w.newPowerTable()
+		best, bestRank := -1, math.Inf(1)
+		for i := range sc.Powers {
+			pw, pk := pt.Get(actor(i))
+			t, err := be.Sign(ctx, pk, gpbft.VerifVRFInput([]byte(b+"0"), 0, round, networkName))
+			if err != nil {
+				panic(err)
+			}
+			if r := gpbft.ComputeTicketRank(t, pw); r < bestRank {
+				best, bestRank = i, r
+			}
+		}
+		if best == sc.Byz {
+			return b
+		}
+	}
+	panic("no beacon found")
 }
 
 var (
@@ -199,33 +229,42 @@ var (
 	triBound  = sc("tri-boundary", []int64{21845, 21845, 21844}, 2, nil, "b0", 2, []string{"aa", "f", ""})
 	eq4part   = sc("eq4-partition", eq4, 3, nil, "b1", 2, []string{"aa", "a", "f", ""})
 	eq4slow   = sc("eq4-slow-links", eq4, 3, nil, "b2", 3, []string{"aa", "aa", "a", ""})
+	eq6slow   = func() *Scenario {
+		s := sc("eq6-two-thirds-view", []int64{1, 1, 1, 1, 1, 1}, 5, nil, "", 2, []string{"a", "a", "a", "a", "a", ""})
+		s.Beacon = byzWinsBeacon(s, 1)
+		return s
+	}()
 )
 
 func policyPlans(thorough bool) []policyPlan {
 	out := []policyPlan{
-		{hon4split, Policy{Kind: "lag", Lagger: 3, FlushRound: 1, LIFO: true}, false},
-		{hon4split, Policy{Kind: "lag", Lagger: 0, FlushRound: 2, LIFO: false}, false},
-		{hon4pref, Policy{Kind: "lag", Lagger: 2, FlushRound: 1, LIFO: true}, false},
-		{w5lag, Policy{Kind: "lag", Lagger: 3, FlushRound: 1, LIFO: true}, true},
-		{triBound, Policy{Kind: "partition", Groups: [][]int{{0}, {1}}, Echo: true, HealAfter: 0}, true},
-		{eq4part, Policy{Kind: "partition", Groups: [][]int{{0}, {1, 2}}, Echo: true, HealAfter: 120}, true},
+		{hon4split, Policy{Kind: "lag", Lagger: 3, FlushRound: 1, LIFO: true}, false, false},
+		{hon4split, Policy{Kind: "lag", Lagger: 0, FlushRound: 2, LIFO: false}, false, false},
+		{hon4pref, Policy{Kind: "lag", Lagger: 2, FlushRound: 1, LIFO: true}, false, false},
+		{w5lag, Policy{Kind: "lag", Lagger: 3, FlushRound: 1, LIFO: true}, true, false},
+		{triBound, Policy{Kind: "partition", Groups: [][]int{{0}, {1}}, Echo: true, HealAfter: 0}, true, false},
+		{eq4part, Policy{Kind: "partition", Groups: [][]int{{0}, {1, 2}}, Echo: true, HealAfter: 120}, true, false},
 	}
 	Q, C, P := gpbft.QUALITY_PHASE, gpbft.COMMIT_PHASE, gpbft.PREPARE_PHASE
 	out = append(out,
 		// a slow QUALITY link makes proposals differ (round 0 fails); slow COMMIT links make p0 advance on borrowed justifications
-		policyPlan{eq4slow, Policy{Kind: "slow", Slow: []Link{{2, 1, Q}, {1, 0, C}, {2, 0, C}}}, true},
-		policyPlan{eq4slow, Policy{Kind: "slow", Slow: []Link{{2, 1, Q}, {0, 2, P}, {1, 2, P}}}, true},
-		policyPlan{hon4split, Policy{Kind: "slow", Slow: []Link{{0, 3, C}, {1, 3, C}, {2, 3, C}, {0, 3, P}}}, false},
+		policyPlan{eq4slow, Policy{Kind: "slow", Slow: []Link{{2, 1, Q}, {1, 0, C}, {2, 0, C}}}, true, false},
+		policyPlan{eq4slow, Policy{Kind: "slow", Slow: []Link{{2, 1, Q}, {0, 2, P}, {1, 2, P}}}, true, false},
+		policyPlan{hon4split, Policy{Kind: "slow", Slow: []Link{{0, 3, C}, {1, 3, C}, {2, 3, C}, {0, 3, P}}}, false, false},
+		// six equal members: a strong quorum is exactly 2/3; slow QUALITY links make round 0 fail, one member's COMMITs
+		// are late for everybody (each of the others advances with an exactly-2/3 view), the Byzantine member holds the
+		// best round-1 ticket and broadcasts
+		policyPlan{eq6slow, Policy{Kind: "slow", Slow: []Link{{3, 0, Q}, {3, 1, Q}, {4, 0, Q}, {4, 1, Q}, {4, 0, C}, {4, 1, C}, {4, 2, C}, {4, 3, C}}}, true, true},
 	)
 	if thorough {
 		out = append(out,
-			policyPlan{eq4slow, Policy{Kind: "slow", Slow: []Link{{2, 1, Q}, {2, 0, Q}, {1, 0, C}}}, true},
-			policyPlan{eq4slow, Policy{Kind: "slow", Slow: []Link{{0, 1, Q}, {1, 0, C}, {2, 0, C}, {1, 0, P}}}, false},
-			policyPlan{hon4split, Policy{Kind: "lag", Lagger: 1, FlushRound: 2, LIFO: true}, false},
-			policyPlan{w5lag, Policy{Kind: "lag", Lagger: 3, FlushRound: 2, LIFO: false}, true},
-			policyPlan{w5lag, Policy{Kind: "lag", Lagger: 0, FlushRound: 1, LIFO: true}, false},
-			policyPlan{triBound, Policy{Kind: "partition", Groups: [][]int{{0}, {1}}, Echo: true, HealAfter: 150}, true},
-			policyPlan{eq4part, Policy{Kind: "partition", Groups: [][]int{{0, 1}, {2}}, Echo: true, HealAfter: 0}, true},
+			policyPlan{eq4slow, Policy{Kind: "slow", Slow: []Link{{2, 1, Q}, {2, 0, Q}, {1, 0, C}}}, true, false},
+			policyPlan{eq4slow, Policy{Kind: "slow", Slow: []Link{{0, 1, Q}, {1, 0, C}, {2, 0, C}, {1, 0, P}}}, false, false},
+			policyPlan{hon4split, Policy{Kind: "lag", Lagger: 1, FlushRound: 2, LIFO: true}, false, false},
+			policyPlan{w5lag, Policy{Kind: "lag", Lagger: 3, FlushRound: 2, LIFO: false}, true, false},
+			policyPlan{w5lag, Policy{Kind: "lag", Lagger: 0, FlushRound: 1, LIFO: true}, false, false},
+			policyPlan{triBound, Policy{Kind: "partition", Groups: [][]int{{0}, {1}}, Echo: true, HealAfter: 150}, true, false},
+			policyPlan{eq4part, Policy{Kind: "partition", Groups: [][]int{{0, 1}, {2}}, Echo: true, HealAfter: 0}, true, false},
 		)
 	}
 	return out
@@ -238,7 +277,7 @@ var hon4odd = func() *Scenario {
 }()
 
 func scenarioByName(name string) *Scenario {
-	for _, s := range append(append(coreScenarios(), moreScenarios()...), hon4split, hon4pref, w5lag, triBound, eq4part, eq4slow, hon4odd) {
+	for _, s := range append(append(coreScenarios(), moreScenarios()...), hon4split, hon4pref, w5lag, triBound, eq4part, eq4slow, hon4odd, eq6slow) {
 		if s.Name == name {
 			return s
 		}
